@@ -7,6 +7,11 @@ ROOT = os.path.dirname(os.path.dirname(os.path.abspath(__file__)))
 
 # id -> (level category, technique, level text, level note, design section)
 CHECKS = {
+ "C15": ("exploration",
+         "crash monitor (recover + journal attribution of process-fatal errors) and hang monitor with causal witnesses (CPU-time spin / thread blocked in read on a pipe), over random + structure-aware hostile inputs, enumerated catalogues and coverage-guided fuzzing",
+         "Hostile byte strings and structure-aware mutations of valid metadata go through both loaders and then the whole post-load API; a catalogue of ~110 degenerate but correctly signed layouts and ~27 hostile link directories (complete enumeration: fault-enumeration style) goes through Sign, InTotoVerify(WithDirectory), LoadMetadata and ValidateMetablock; the thorough tier adds native coverage-guided fuzzing of three targets bounded by execution count. Any panic, process-fatal error, spin or blocked read is a violation with the panic site as signature.",
+         "Trusted: nothing beyond the harness. A slow but progressing call is inconclusive. Zero-value objects no loader can produce are not offered.",
+         "C15"),
  "C09": ("exploration",
          "reference-model monitor over directory snapshots logged by the inspection command itself + execution-order log + hook events",
          "Seeded final-product directories (added/removed/modified/line-ending-only differences), 0-3 inspections with command behaviours from a catalogue and rule lists from a vocabulary, three entry-point variants, both wrappers, line normalisation on/off, step links with different hash-algorithm sets; the reference rule interpreter runs over what the command really saw before/after plus the step links; failing/unstartable commands, order, exactly-once and 'only after the step checks' are read off the command's own log and the inspection_exec events.",
